@@ -999,7 +999,8 @@ class SyncObj(object):
                     self.__onBecomeLeader()
 
         if self.__raftState == _RAFT_STATE.LEADER:
-            if message['type'] == 'next_node_idx':
+            if message['type'] == 'next_node_idx' and \
+                    message.get('term', self.__raftCurrentTerm) == self.__raftCurrentTerm:
                 reset = message['reset']
                 nextNodeIdx = message['next_node_idx']
                 success = message['success']
@@ -1031,6 +1032,7 @@ class SyncObj(object):
             nextNodeIdx = self.__getCurrentLogIndex() + 1
         self.__transport.send(node, {
             'type': 'next_node_idx',
+            'term': self.__raftCurrentTerm,
             'next_node_idx': nextNodeIdx,
             'reset': reset,
             'success': success,
